@@ -129,7 +129,8 @@ def route(tokeniser: Any) -> list[Route]:
             else:
                 # Flow rules that need iteration and add()
                 for adding in handler(tokeniser):
-                    flow_nlri.add(adding)
+                    if flow_nlri.add(adding) is False:
+                        raise ValueError(f'flow route: "{command}" cannot be added to the rule (address family of the other prefix)')
         elif target == ActionTarget.ATTRIBUTE:
             handler = cast(Callable[[Any], Any], ParseFlow.known[command])
             attributes.add(handler(tokeniser))
